@@ -2,7 +2,7 @@
 
 from __future__ import annotations
 
-import ast
+import ast, itertools
 import json
 
 from lib.common import *
@@ -347,6 +347,90 @@ def stage_oracle(ctx: Ctx, progs):
                 anc = anc.parent
 
 
+def nav_zoo():
+    out = []
+    decos = ['', '@d\n', '@d1\n@d2(x)\n']
+    tps = ['', '[T]', '[T: int, *U, **V]']
+    argss = ['', 'a', 'a, /', 'a, b, /', '*a', '*, k', '*, k=1, j', '**kw', 'a, /, b, *c, d=1, **e', 'a: int = 1, *b: str', 'a=1, /, b=2']
+    for d, t in itertools.product(decos, tps):
+        body = []
+        for i, ar in enumerate(argss):
+            body.append(f'{d}def f{i}{t}({ar}): pass')
+            body.append(f'{d}async def g{i}{t}({ar}) -> r: pass')
+        out.append('\n'.join(body) + '\n')
+        body = []
+        for i, b in enumerate(['', '()', '(B)', '(B, k=1)', '(*b, k=1, **c)', '(k=1, *b, j=2, m=3, n=4)']):
+            body.append(f'{d}class C{i}{t}{b}: pass')
+        out.append('\n'.join(body) + '\n')
+    out.append('\n'.join(f'l{i} = lambda {ar}: 0' for i, ar in enumerate(argss) if ':' not in ar) + '\n')
+    out.append('f(a)\nf(*a)\nf(k=1)\nf(**k)\nf(a, *b, k=1, **c)\nf(k=1, *a)\nf(k=1, *a, j=2, m=3, n=4)\nf(*a, k=1, *b, j=2, **c, m=3)\nf(a for a in b)\n')
+    out.append('try: pass\nexcept: pass\ntry: pass\nexcept E: pass\ntry: pass\nexcept E as e: pass\nelse: pass\nfinally: pass\ntry: pass\nfinally: pass\n'
+               'try: pass\nexcept* (A, B) as e: pass\nfor a in b: pass\nelse: pass\nwhile a: pass\nelse: pass\nasync def h():\n  async for a in b: pass\n  async with a as b, c: pass\n  await x\n'
+               'with a: pass\nwith a as b, c as (d, e): pass\nwith (a, b): pass\nif a: pass\nelif b: pass\nelse: pass\n')
+    out.append('x = [a for a in b]\nx = {a: b for a, b in c if d if e for f in g}\nx = {**a, b: c, **d}\nx = {a, *b}\nx = f"{a!r:>{w}} {b=}"\nx = a < b <= c\nx = a and b or c\n'
+               'type A[T, *U] = B\ntype A = B\nimport a, b.c as d\nfrom . import (a, b as c)\nfrom .. m import *\n'.replace('.. m', '..m') +
+               'def s():\n  global a, b\n  nonlocal_ = 1\n  x: int\n  y: int = 1\n  (z): int = 2\n  raise\n  raise E\n  raise E from c\n  assert a\n  assert a, m\n  return\n  return a\n  del a, b[c]\n'
+               '  yield\n  yield a\n  yield from a\n')
+    out.append('x[a]\nx[a:b]\nx[:b]\nx[a:]\nx[::c]\nx[a:b:c]\nx[a, b:c]\nx[:]\n*a, b = c\na = b if c else d\n(a := b)\na = -b\na = b ** c\nprint(*a)\nx = a.b.c\nx = ()\nx = []\nx = {}\n')
+    out.append('match a:\n  case 1: pass\n  case b: pass\n  case _: pass\n  case b as c: pass\n  case [a, *b]: pass\n  case [*_]: pass\n  case {1: a}: pass\n  case {**r}: pass\n  case {1: a, **r}: pass\n'
+               '  case C(): pass\n  case C(a): pass\n  case C(k=a): pass\n  case C(a, b, k=c, j=d): pass\n  case a | b: pass\n  case None if g: pass\n  case a.b: pass\n  case -1 | 2+3j: pass\n  case (a): pass\n')
+    return out
+
+def seqs(f, m):
+    kids = list(f.walk(m, self_=False, recurse=False))
+    bad = []
+    seq = []; c = f.first_child(m)
+    while c is not None and len(seq) < 500: seq.append(c); c = c.next(m)
+    if [id(x) for x in seq] != [id(x) for x in kids]: bad.append('first_child/next')
+    seq2 = []; c = f.last_child(m)
+    while c is not None and len(seq2) < 500: seq2.append(c); c = c.prev(m)
+    if [id(x) for x in seq2] != [id(x) for x in reversed(kids)]: bad.append('last_child/prev')
+    for x, y in zip(kids, kids[1:]):
+        if x.next(m) is not y: bad.append('next'); break
+        if y.prev(m) is not x: bad.append('prev'); break
+    seq3 = []; c = f.next_child(None, m)
+    while c is not None and len(seq3) < 500: seq3.append(c); c = f.next_child(c, m)
+    if [id(x) for x in seq3] != [id(x) for x in kids]: bad.append('next_child')
+    seq4 = []; c = f.prev_child(None, m)
+    while c is not None and len(seq4) < 500: seq4.append(c); c = f.prev_child(c, m)
+    if [id(x) for x in seq4] != [id(x) for x in reversed(kids)]: bad.append('prev_child')
+    kb = list(f.walk(m, self_=False, recurse=False, back=True))
+    if [id(x) for x in kb] != [id(x) for x in reversed(kids)]: bad.append('back')
+    return bad
+
+
+def stage_modes(ctx: Ctx, progs):
+    """the sibling / child navigation and stepping agree with walk() under EVERY `all` setting (True, False, 'loc', a class, a set of classes), for every
+    node of programs that hold every combination of optional child groups (decorators x type parameters x argument kinds x bases ...)"""
+    import fst
+    for pi, src in enumerate(progs):
+        root = fst.FST(src, 'exec')
+        w = list(root.walk(True))
+        for m in (True, False, 'loc', ast.Name, {ast.arguments, ast.arg, ast.keyword}):
+            mname = m.__name__ if isinstance(m, type) else 'set' if isinstance(m, set) else repr(m)
+            ctx.tick(('modes', src, mname), 'modes:' + mname)
+            for f in w:
+                bad = seqs(f, m)
+                if bad:
+                    ctx.violation(f'modes|{bad[0]}|all={mname}|{type(f.a).__name__}', 'sibling/child navigation disagrees with walk(recurse=False) under the same `all` setting',
+                                  {'src': src, 'all': mname, 'parent': type(f.a).__name__, 'parent_src': f.src[:120] if f.loc else None, 'disagree': bad,
+                                   'walk': [type(k.a).__name__ for k in f.walk(m, self_=False, recurse=False)]})
+                    break
+            wm = list(root.walk(m))
+            if wm:
+                for name, seq0, step in (('step_fwd', wm, lambda c: c.step_fwd(m)), ('step_back', list(root.walk(m, back=True)), lambda c: c.step_back(m))):
+                    seq = [seq0[0]]
+                    c = step(seq0[0])
+                    while c is not None and len(seq) < len(w) + 5:
+                        seq.append(c)
+                        c = step(c)
+                    if [id(x) for x in seq] != [id(x) for x in seq0]:
+                        k = next((i for i, (x, y) in enumerate(zip(seq, seq0)) if x is not y), min(len(seq), len(seq0)))
+                        ctx.violation(f'modes|{name}|all={mname}', f'repeated {name}() does not reproduce the walk under the same `all` setting',
+                                      {'src': src, 'all': mname, 'first_difference_at': k, 'step_gives': type(seq[k].a).__name__ if k < len(seq) else None,
+                                       'walk_gives': type(seq0[k].a).__name__ if k < len(seq0) else None})
+
+
 def run(ctx: Ctx):
     ctx.rule = ('(1) every distinct node shape (class x field occupancy) of the corpus: translated tables executed in Coq vs the real stepping functions; '
                 '(2) random (start node, all-filter, on, back, recurse) walks: stack-machine model vs real generator; (3) per corpus program the full '
@@ -361,9 +445,12 @@ def run(ctx: Ctx):
                  'f(' + ', '.join(f'a{i}' for i in range(11)) + ', ' + ', '.join(f'k{i}=1' for i in range(11)) + ')\n' + 'big = (' + ', '.join(str(i) for i in range(105)) + ')\n')
     if ok:
         ctx.build_props()
+    zoo = nav_zoo()
+    progs += zoo
     run_guarded(ctx, stage_tables_corr, progs)
     run_guarded(ctx, stage_walk_corr, progs)
     run_guarded(ctx, stage_oracle, progs)
+    run_guarded(ctx, stage_modes, zoo + progs[:ctx.scale(6, 40)])
 
 
 def replay(path):
